@@ -94,7 +94,7 @@ def plant() -> None:
         setattr(m, k, v)
     sys.modules["vt_trapmod"] = m
     # a package on disk whose submodule is NOT loaded; importing it has a visible side effect
-    d = tempfile.mkdtemp(prefix="vtpkg_")
+    d = tempfile.mkdtemp(prefix="vtpkg_", dir=os.environ.get("VT_SCRATCH"))
     pkg = os.path.join(d, "vtpkgx")
     os.mkdir(pkg)
     with open(os.path.join(pkg, "__init__.py"), "w") as fh:
